@@ -4,7 +4,7 @@ import ast
 import z3
 
 from .vals import *
-from .types import *
+from .tys import *
 from .strops import *
 from .interp import Raise, EngineLimit, NORMAL, St, SRange, UNBOUND, stmt_text
 from .contract import REGISTRY, OPAQUE_TYPES, GROUP_MODELS, Const
